@@ -7,6 +7,12 @@ ROOT = os.path.dirname(os.path.dirname(os.path.abspath(__file__)))
 ALL = ["C%02d" % i for i in range(1, 21)]
 
 CHECKS = {
+    "C18": dict(
+        technique="Lean 4 round-trip theorem for the byte-exact output-batch codec; theorems over field-copy tables regenerated from the Go AST (every encoder/decoder of robust.Message and raft.Log found in the repo); cross-decoding differential run Go<->Lean and real protobuf/JSON round trips",
+        text="Proof that unmarshal(marshal b) = b for every output batch (any sizes, any bytes, recipients up to 2^64-1), and that the regenerated field-copy tables of ProtoMessage/CopyToProtoMessage/NewMessageFromBytes and of all raft-log writers/readers compose to the identity on every field (lifted to all records by a general lemma); id defaulting modelled and pinned to the regenerated condition. The wire codecs themselves are assumed and validated on every run with real protobuf/JSON round trips.",
+        design_ref="DESIGN.md §4 C18",
+        note="Trusts: Lean kernel; tools/extract copy-fact extraction; proto.Marshal/Unmarshal, encoding/json, timestamppb round-trips (exercised by the differential run, not proved).",
+    ),
     "C19": dict(
         technique="Lean 4 theorems over definitions regenerated from timesafeguard.go by a Go-to-Lean fragment translator; differential run of the real functions vs the model; soundness oracle on synthetic measurements",
         text="Machine-checked proof (Lean 4, unbounded integers incl. int64 wrap/saturation) that a measurement accepted by the regenerated worstCaseDrift/timeInSync implies |true offset| < 2s for every delay pattern, that refusal lists exactly the offending answered peers, that unanswered peers are ignored and that only the flag overrides; the definitions are re-translated from the Go source on every run and synchronizedWithNetwork is tied by a differential run.",
